@@ -209,6 +209,15 @@ def expected(fi, op):
     raise ValueError(op)
 
 
+def negative_ordinal_alternative(fi, op):
+    """Where an ordinal is negative and within [-count, 0), Python indexing denotes a real item; the property accepts
+    that item as well as a refusal.  Returns the alternative expected ('ok', array) or None."""
+    if op[0] in ('tr', 'trw') and isinstance(op[1], int) and -fi.tracecount <= op[1] < 0:
+        alt = expected(fi, (op[0], fi.tracecount + op[1]) + tuple(op[2:]))
+        return alt if alt[0] == 'ok' else None
+    return None
+
+
 def same(got, want):
     """bit-for-bit equality of a returned array with the expected slice (shape included)"""
     got = np.asarray(got)
